@@ -27,6 +27,12 @@ CHECKS = {
          "Every byte string up to length 4 (quick) / 6 (thorough) over {a, C3, A9, E2, 82, AC, F0, FF} (ASCII, valid 2/3-byte runes, truncated and invalid sequences), every n in -3..8, every []int shape up to length 4/5 (nil, empty, spare capacity) under every mutation script, every map over keys {a,b,c,nil} x values {1,nil} in three map types with deletion scripts, and every channel content up to length 3 are fed to the seq.New*Iter iterators and to a native range loop in the same process; the pair sequences must be equal (multisets plus the spec deletion rules for maps).",
          "Trusted: the Go compiler own range statement as reference. Inputs beyond the bounds (longer strings, other element types) are not covered; random longer inputs mentioned by the property are sampling and are not done.",
          "DESIGN.md section 2, C10"),
+ "C14": ("exhaustive enumeration of interleavings: every ordered k-tuple of live iterators x every schedule of m advances each, each iterator compared with its solo run",
+         "A pool of 9 compiled generators (closure state, recursive tree walk and recursion through YieldFrom, range-backed, infinite with switch/continue, consumer-inside-generator, generator literal called twice, type switch with yielding post, hand-advanced delegate) is instantiated as every ordered pair (m=4/5) and triple (m=2/3) with repetition; all interleavings of the advances are executed on the real compiled code, each iterator with its own environment, and its (MoveNext, Current, private effect log) sequence must equal its solo run. At runtime level one Seq VALUE is started three times and all interleavings are run. Supplements, reported separately and not the basis of the claim: the same bodies free-running on goroutines under -race (sampling), and a static audit that seq/ and the generated code declare no package-level variable and no go statement.",
+         "Trusted: solo run as oracle (its agreement with the source is C01/C02's subject and the pool is also explored there). The runtime has no synchronisation operations, so there are no scheduling points inside an advance; true parallelism is covered only by the sampled -race pass.", "DESIGN.md section 2 C14"),
+ "C17": ("exhaustive enumeration of loop forms x non-yielding body terms x iteration counts with a stack-depth monitor on every sampled state",
+         "Runtime level: every body term of size <= 3 that completes with Normal/Continue (incl. Combine, Delay, Breakable, Continuable) under Loop, While and For runs n = 2^12 (quick) / 2^16 (thorough) iterations between two yields. Compiled level: 9 loop shapes (three-clause with continue, condition-only with filter, infinite with break, range over slice/string, linq-style Where(Range), switch with continue, yielding post, nested non-yielding inner loop) with n up to 2^12 / 2^20, never yielding inside or every 16th iteration, each run in its own worker process (a stack overflow is itself the violation); delegation depth d = 1..64/256. The call-stack depth (runtime.Callers) is sampled inside the loop at iterations 1..64 and around every power of two; the invariant is that the maxima over (0,N/4], (N/4,N/2], (N/2,N] are not strictly increasing, and that depth grows at most linearly in d.",
+         "Bounded in n; the step from n to all n rests on the loop state at iteration i+1 having the same closure shape as at i (stated as an assumption). Depth is sampled, not observed at every iteration, so growth confined to unsampled iterations only would be missed; a monotone leak cannot hide there.", "DESIGN.md section 2 C17"),
  "C09": ("exhaustive enumeration of operation histories on the real iterator vs an abstract state machine",
          "Every history over {MoveNext, Current, Result, Send(1), Send(2)} up to length 6 (quick) / 8 (thorough) is replayed on a fresh real seq iterator for each of 42 generators (BindRecv/Bind chains, For-loop and infinite generators, with/without echo and return value) and compared, record by record including the generator-side effect log, with a 30-line abstract machine written from the property statement. Bounded-exhaustive: no sampling.",
          "Trusted: the abstract machine in rtcheck/c09.go; histories longer than the bound and generators outside the family are not covered. Result is compared only after exhaustion.",
